@@ -104,7 +104,7 @@ class C14(PureCheck):
             "(numbers+booleans, positional names, fg=/bg= names, style=, fmtfuncs nesting in both orders, copy_with_new_atts, "
             "nested single-attribute fmtstr calls in every order of <=3), overrides of an earlier value, the 25 fmtfuncs "
             "names, a catalogue of 59 invalid specifications (unknown words, wrong types, contradictions, out-of-range numbers, valid names with stray whitespace), new_with_atts_removed for name subsets, copy_with_new_str, "
-            "shared_atts. distinct_nontrivial = distinct (base profile, steps) with a formatted or multi-run base or >=2 items")
+            "shared_atts (also over runs whose style values are True / False / None / absent in every arrangement). distinct_nontrivial = distinct (base profile, steps) with a formatted or multi-run base or >=2 items")
     exhaustive = {"quick": False, "thorough": False}
 
     def design_runs(self, tier):
@@ -203,6 +203,19 @@ class C14(PureCheck):
                 for t in ("", "xy", "q"):
                     yield {"op": "newstr", "f": b["v"], "t": [ord(c) for c in t]}
                 yield {"op": "shared", "f": b["v"]}
+
+        # shared_atts over runs whose style values are True / False / None / absent in every arrangement of two and
+        # three runs (a value forwarded as `bold=flag_or_None` is stored as given), empty runs in between
+        for i in (2, 5, 7):
+            for vals in itertools.product((0, 1, 2, 3), repeat=3):
+                runs = []
+                for j, v in enumerate(vals):
+                    a = [0] * 8
+                    a[i] = v
+                    a[0] = 2 if j == 1 else 0
+                    runs.append([[97 + j] if (sum(vals) + j) % 5 else [], a])
+                yield {"op": "shared", "f": runs}
+                yield {"op": "shared", "f": runs[:2]}
 
     def execute(self, inp):
         op = inp["op"]
